@@ -49,13 +49,13 @@ CLAIMS = {
  "C09": ("Theorems deref_correct (accepted => for every value `&*x`/`&mut *x` designates the sole field or the marked one; includes the "
          "wildcard-counted tuple pattern lemma matchTuple_replicate), pick_eq_designated / struct_refused_iff / variant_refused_iff (refused "
          "exactly when the designation is missing, duplicated or the variant is a unit), write_through_only_designated. Tie: real macro + rustc, "
-         "pointer identity of `&*x` / `&mut *x` against every field's storage (or referent), fields changed after a write. End to end (Props/E2E.lean): deref_struct_end_to_end / deref_enum_end_to_end with derefLoop_pickLoop / derefPick_pick (the attribute layer's marker loop and the behavioural layer's are the same loop): the field index the item reports is the designated field of the reference semantics on the markers read from the fields' own attributes, and `&*x` designates it for every value. Tie B6.",
+         "pointer identity of `&*x` / `&mut *x` against every field's storage (or referent), fields changed after a write. End to end (Props/E2E.lean): deref_struct_end_to_end / deref_enum_end_to_end with derefLoop_pickLoop / derefPick_pick (the attribute layer's marker loop and the behavioural layer's are the same loop): the field index the item reports is the designated field of the reference semantics on the markers read from the fields' own attributes, and `&*x` designates it for every value. Tie B6. The type helpers are inside the model (Ty.ungroup / isRef / dereference, Attr/Syntax.lean; group_is_transparent, dereference_not_ref, dereference_of_not_ref); Deref::Target of the real impl is compared with the model's dereferenced type.",
          COMMON_NOTE + "the model returns the designated field index; that a reference-typed field yields its referent is Rust's deref coercion (observed, not modelled); Target type agreement across variants is rustc's check.",
          "Lean 4 theorem + differential correspondence by pointer identity"),
  "C10": ("Theorems into_correct (for every generated impl and value, x.into() is the field designated for T — sole field, else marked, else "
          "unique same-typed — through the marker's method / unchanged when already T / Into<T> otherwise), select_ok_iff / select_error_iff "
          "(the two selection loops = the designation function, refused exactly when not unique), items_targets (one impl per requested "
-         "target, no other). Tie: real macro + rustc with source/target types whose conversions are pairwise distinguishable. End to end (Props/E2E.lean): into_handler_end_to_end with intoSelect_select / intoLoop_markerLoop / intoSame_sameTypeLoop (the attribute layer's field selection for a target and the behavioural layer's are the same procedure, for every injective numbering of the normalised type strings): one item per requested target in the order of the sorted target map, and for each the generated impl returns the field designated by the reference semantics on the markers read from the fields' own attributes. Tie B6.",
+         "target, no other). Tie: real macro + rustc with source/target types whose conversions are pairwise distinguishable. End to end (Props/E2E.lean): into_handler_end_to_end with intoSelect_select / intoLoop_markerLoop / intoSame_sameTypeLoop (the attribute layer's field selection for a target and the behavioural layer's are the same procedure, for every injective numbering of the normalised type strings): one item per requested target in the order of the sorted target map, and for each the generated impl returns the field designated by the reference semantics on the markers read from the fields' own attributes. Tie B6. The normalisation of target and field types (to_hash_type) is inside the model (Ty.hashTy; hashTy_of_refs, hashTy_of_not_ref) and computed by the driver from syn's type trees.",
          COMMON_NOTE + "types are compared by normalised token string as the code does (opaque ids in the model); the iteration order of the target map is an input of the model here and the subject of C16.",
          "Lean 4 theorem + differential correspondence on returned values"),
  "C08": ("Theorems default_correct (accepted => T::default() is the type-level expression, else the struct / marked-or-only variant / "
